@@ -168,6 +168,31 @@ def run_history(desc, base, ops, ctx, bm, construct="at_base"):
                 ctx.violation(clause, clause + "/after=" + after, {"err": tol.maxabs(J - want) if J.shape == want.shape else None,
                                                                    "tol": t, "step": step}, hist)
 
+    def adopt_after_failure(candidates):
+        """The property does not say WHICH coherent state a failed solve leaves (the entry state, the clamped zero vector, the last
+        iterate ...): take the candidate whose pose the arm reports; the stored vector itself is read as a last resort; if nothing
+        explains the reported pose the joint state is unknown until the next FK (coherence after failures is C07's clause)."""
+        cands = [np.asarray(c, dtype=float).reshape(-1) for i, c in enumerate(candidates) if c is not None and (i > 0 or model.theta_known)]
+        st = getattr(arm, "_theta", None)
+        if st is not None:
+            cands.append(np.asarray(st, dtype=float).reshape(-1))
+        try:
+            G = arm.getEEPos().gTM()
+        except Exception:
+            model.theta_known = False
+            return
+        for c in cands:
+            if c.shape == (model.n,) and np.all(np.isfinite(c)):
+                cc = model.clamp(c)
+                for v in (c, cc):
+                    T = model.pose(v)
+                    if tol.maxabs(G - T) <= 1e-6 * max(1.0, float(np.linalg.norm(T[:3, 3]))):
+                        model.theta = v.copy()
+                        model.theta_known = True
+                        return
+        model.theta_known = False
+        ctx.cls("joint_state_unknown_after_failed_ik")
+
     def check_queries(step, after):
         """Queries with defaulted joint arguments refer to the current state and leave the reported poses alone."""
         if not model.theta_known or np.any(model.clamp(model.theta) != model.theta):
@@ -215,9 +240,8 @@ def run_history(desc, base, ops, ctx, bm, construct="at_base"):
                         model.theta = model.theta % (2 * PI)
                 elif suc:
                     model.theta = th_ret.copy()
-                elif op["check"]:
-                    model.theta = np.zeros(model.n)
-                # else unchanged
+                else:
+                    adopt_after_failure([model.theta, np.zeros(model.n), th_ret])
             elif k == "move":
                 newB = se3.taa_to_T(op["base"])
                 model.B = newB
@@ -229,7 +253,10 @@ def run_history(desc, base, ops, ctx, bm, construct="at_base"):
                 if op["stationary"]:
                     if len(ik_log) > n0:
                         th_ret, suc = ik_log[-1]
-                        model.theta = np.asarray(th_ret, dtype=float).reshape(-1).copy() if suc else np.zeros(model.n)
+                        if suc:
+                            model.theta = np.asarray(th_ret, dtype=float).reshape(-1).copy()
+                        else:
+                            adopt_after_failure([model.theta, np.zeros(model.n), np.asarray(th_ret, dtype=float).reshape(-1)])
                         ctx.cls("move_stationary:" + ("success" if suc else "fail"))
                     else:
                         model.theta_known = False
